@@ -300,6 +300,12 @@ def campaign(c):
             c.case(('path', args[0]), None)
     finally:
         shutil.rmtree(d, ignore_errors=True)
+    # (3-) success means a well-formed output file also when the output path already held something longer (an earlier compile of
+    #      a bigger program, unrelated bytes): generated programs compiled over stale files of several kinds
+    for i, srcb, g in progdiff.generated_programs(c, 24 if c.quick else 400, max_stmts=5, payload_max=40):
+        stale = [b'\xd4\xc3\xb2\xa1' + b'\x5a' * 9000, bytes(range(256)) * 64, b'\x4d\x3c\xb2\xa1\x02\x00\x04\x00' + b'\0' * 16 + b'\xff' * 5000][i % 3]
+        impl, model = progdiff.run_both(c, srcb, prefill=stale)
+        judge_cli(c, srcb, impl, model, 'stale-output')
     # (3a) an error raised while EXECUTING a statement is reported at a line within that statement - for every class of such an
     #      error, a statement that spans one or several lines, as the last statement of the file or not, with and without
     #      remarks, blank lines and further text after it
